@@ -108,8 +108,14 @@ Fixpoint split_args_go (l cur : list mtok) (depth : nat) (acc : list (list mtok)
 
 Inductive sres := SOk (rest : list mtok) (args : list (list mtok)) | SErr (e : merr).
 
+Fixpoint trim_start_all (l : list mtok) : list mtok :=      (* whitespace, comments and line ends *)
+  match l with
+  | t :: r => if is_ws t then trim_start_all r else l
+  | [] => []
+  end.
+
 Definition split_args (after_name : list mtok) : sres :=
-  match trim_start after_name with
+  match trim_start_all after_name with
   | MLP :: r => match split_args_go r [] 0 [] with Some (rest, args) => SOk rest args | None => SErr MacroArgumentsNeverEnd end
   | _ => SErr MacroRequiresArguments
   end.
@@ -122,10 +128,10 @@ Inductive found :=
 | FErr (e : merr)
 | FHang.      (* the `continue` that skips `i += 1` *)
 
-(* position of the first token that is not inline whitespace, counting from `from` *)
+(* position of the first token that is not whitespace (line ends included), counting from `from` *)
 Fixpoint first_non_ws_inline (l : list mtok) (from : nat) : nat :=
   match l with
-  | t :: r => if is_ws_inline t then first_non_ws_inline r (S from) else from
+  | t :: r => if is_ws t then first_non_ws_inline r (S from) else from
   | [] => from
   end.
 
